@@ -420,6 +420,23 @@ def partial_core(chk):
                     check = check or fi
     if check is None:
         raise Undecided("no signature check (a function reaching Signature.bind_partial) is called from Partial.__init__", init.node)
+    # Partial(ctor, *args, __leaf__, **kwargs) and template(*args, **kwargs): every other NAMED parameter captures a
+    # keyword argument of that name that the user means for the element (`!Logger {name: ...}`, `Ctrl.s(name=...)`)
+    for fn_name, allowed_kwonly in (("__init__", ("__leaf__",)), ("__call__", ())):
+        f = prog.lookup_method(cls, fn_name)
+        if f is None or f.cls is not cls:
+            continue
+        a = f.node.args
+        named = [x.arg for x in (a.posonlyargs + a.args)][(2 if fn_name == "__init__" else 1):] + [x.arg for x in a.kwonlyargs if x.arg not in allowed_kwonly]
+        chk.count()
+        if named and a.kwarg is not None:
+            chk.bad(
+                "O4.1",
+                f.qual,
+                "Partial.%s takes the named parameter(s) %s besides (%s*args, %s**kwargs): a keyword argument of that name meant for the element's constructor is captured by the template and the element is built without it" % (fn_name, named, "ctor, " if fn_name == "__init__" else "", "__leaf__, " if fn_name == "__init__" else ""),
+                node=f.node,
+                stmt="template-signature-shadows %s" % ",".join(named),
+            )
 
     def is_check_call(e):
         if e[0] != "call":
